@@ -15,7 +15,11 @@ for fn in sorted(os.listdir(os.path.join(HERE, "props"))):
     spec = importlib.util.spec_from_file_location("p_" + pid, os.path.join(HERE, "props", fn))
     mod = importlib.util.module_from_spec(spec)
     spec.loader.exec_module(mod)
-    m = mod.CFG["manifest"]
+    m = dict(mod.CFG["manifest"])
+    if m["category"] == "proof" and not mod.CFG.get("theorems"):
+        # no theorem registered yet: what the check delivers today is translation validation
+        m["category"] = "translation_validation"
+        m["text"] = "(theorems for this property are still being proved; today's claim is translation validation only) " + m["text"]
     checks.append({
         "property_id": pid,
         "quick_cmd": "./check %s --tier quick" % pid,
